@@ -626,6 +626,16 @@ func (f *FuncCtx) selectStmt(s *ast.SelectStmt, env *Env, fl *flow) *Env {
 		g := f.fresh("sel", "Bool")
 		f.assume(et, g)
 		if c.Comm != nil {
+			// a receive from a nil channel is never ready
+			if ch := recvChan(c.Comm); ch != nil {
+				if id, ok := ast.Unparen(ch).(*ast.Ident); ok {
+					if v, ok := et.vars[f.info().ObjectOf(id)]; ok && v.Typ != nil {
+						if _, isCh := v.Typ.Underlying().(*types.Chan); isCh {
+							f.assume(et, fmt.Sprintf("(not (= %s nil_Chan))", v.T))
+						}
+					}
+				}
+			}
 			et = f.stmt(c.Comm, et, inner)
 		}
 		outs = append(outs, f.block(c.Body, et, inner))
@@ -941,15 +951,20 @@ func (f *FuncCtx) loopCommon(label string, env *Env, fl *flow, nodes []ast.Node,
 	for k := range head.names {
 		if strings.HasPrefix(k, "calls:") || strings.HasPrefix(k, "lastarg:") {
 			name := strings.TrimPrefix(k, "calls:")
-			if f.loopCalls(nodes, name) || strings.HasPrefix(k, "lastarg:") {
+			if f.loopCalls(nodes, name, env) || strings.HasPrefix(k, "lastarg:") {
 				v := head.names[k]
 				head.names[k] = Val{T: f.fresh("ncalls", f.sortOfVal(v)), Typ: v.Typ, S: v.S}
 			}
 		}
 	}
+	for k, v := range head.names {
+		if strings.HasPrefix(k, "$g:") {
+			head.names[k] = f.freshVal(v.Typ, strings.TrimPrefix(k, "$g:"))
+		}
+	}
 	// counters for tracked calls made in the loop but not yet present
 	for name := range f.trackCall {
-		if _, ok := head.names["calls:"+name]; !ok && f.loopCalls(nodes, name) {
+		if _, ok := head.names["calls:"+name]; !ok && f.loopCalls(nodes, name, env) {
 			env.names["calls:"+name] = Val{T: "0", Typ: types.Typ[types.Int]}
 			head.names["calls:"+name] = Val{T: f.fresh("ncalls", "Int"), Typ: types.Typ[types.Int]}
 		}
@@ -1003,7 +1018,7 @@ func (f *FuncCtx) loopCommon(label string, env *Env, fl *flow, nodes []ast.Node,
 func hasKey(m map[int][]Clause, k int) bool { _, ok := m[k]; return ok }
 
 // loopCalls: does the loop body syntactically contain a call whose callee text is name?
-func (f *FuncCtx) loopCalls(nodes []ast.Node, name string) bool {
+func (f *FuncCtx) loopCalls(nodes []ast.Node, name string, env *Env) bool {
 	found := false
 	for _, nd := range nodes {
 		if nd == nil {
@@ -1018,7 +1033,7 @@ func (f *FuncCtx) loopCalls(nodes []ast.Node, name string) bool {
 				// calls through local closures may reach the tracked callee
 				if id, ok := ast.Unparen(c.Fun).(*ast.Ident); ok {
 					if _, isVar := f.info().ObjectOf(id).(*types.Var); isVar {
-						found = found || f.closureMayCall(id, name)
+						found = found || f.closureMayCall(id, name, env)
 					}
 				}
 			case *ast.SendStmt:
@@ -1036,9 +1051,21 @@ func (f *FuncCtx) loopCalls(nodes []ast.Node, name string) bool {
 	return found
 }
 
-func (f *FuncCtx) closureMayCall(id *ast.Ident, name string) bool {
-	// conservative: any local closure may call anything tracked
-	return true
+func (f *FuncCtx) closureMayCall(id *ast.Ident, name string, env *Env) bool {
+	// a local closure (bound function literal) may call anything tracked; an opaque function value
+	// (parameter, range variable, field) cannot reach the syntactic call sites of this function
+	if o := f.info().ObjectOf(id); o != nil {
+		if v, ok := env.vars[o]; ok && v.Clo != nil {
+			return true
+		}
+		if _, ok := env.vars[o]; !ok {
+			// declared inside the loop: only a binding to a function literal can reach tracked callees
+			if decl := f.E.declNodeOf(f.Pkg, o); decl {
+				return true
+			}
+		}
+	}
+	return false
 }
 
 func (f *FuncCtx) obligeIn(name, kind string, env *Env, goal, text, src string) {
@@ -1272,4 +1299,22 @@ func (f *FuncCtx) recordAliases(s *ast.AssignStmt, env *Env) {
 			}
 		}
 	}
+}
+
+
+// recvChan returns the channel expression of a receive communication clause.
+func recvChan(s ast.Stmt) ast.Expr {
+	var e ast.Expr
+	switch s := s.(type) {
+	case *ast.ExprStmt:
+		e = s.X
+	case *ast.AssignStmt:
+		if len(s.Rhs) == 1 {
+			e = s.Rhs[0]
+		}
+	}
+	if u, ok := ast.Unparen(e).(*ast.UnaryExpr); ok && u.Op == token.ARROW {
+		return u.X
+	}
+	return nil
 }
